@@ -10,27 +10,27 @@ ALL = [f"C{n:02d}" for n in range(1, 21)]
 CHECKS = {
     "C07": ("exploration",
             "exhaustive enumeration of (nsteps, period, numrec, layout, pvar, direction, file name) against predicted record schedule; split == unsplit differential",
-            "Every tuple in the stated box is run end to end through ladim.main and compared with the predicted file names, per-file record counts and record times, and the split run with the unsplit run. Complete inside the box (quick: nsteps<=9, period<=3, numrec<=3; thorough: 14/5/4), nothing outside it.",
+            "Every tuple in the stated box is run end to end through ladim.main and compared with the predicted file names, per-file record counts and record times, and the split run with the unsplit run. Complete inside the box (quick: nsteps<=9, period<=3, numrec<=3; thorough: 14/5/4) x four file-name prototypes (out.nc, out_07.nc, out_0000.nc, out_2000_00.nc), nothing outside it.",
             "Constant velocity, two particles, dt=60 s; netCDF4 is trusted to read back what was written.",
             "DESIGN.md section 3 C07"),
     "C01": ("exploration",
             "Hypothesis-generated analytic velocity fields, metrics and time steps; differential of Tracker.update against independent EF/RK2/RK4 references (one step, 1e-9 cell) + observed order of convergence vs a 64x finer reference",
-            "The real Tracker is driven with a plug-in analytic forcing (steady and time-dependent fields, dx != dy, dt 1 s..1 day, displacements up to 0.95 cell) and its one-step result compared with the scheme's prescription incl. the fractional times requested; trajectories at n, 2n, 4n steps must show order >= k-0.5; the analytic helpers get_velocity1/2/4 get the same two oracles. Part 'stock' drives Tracker + the stock ROMS Forcing + the stock ROMS Grid from generated files (fields linear in x, y, t over one to four frame intervals of 1-4 steps each, the run starting at or after the first frame, metric varying by cell, subgrids, forward and reversed, optionally a current that varies with depth with particles at different depths and a quarter of the particles switched off) and applies the same one-step identity.",
+            "The real Tracker is driven with a plug-in analytic forcing (steady and time-dependent fields, dx != dy, dt 1 s..1 day, displacements up to 0.95 cell) and its one-step result compared with the scheme's prescription incl. the fractional times requested; trajectories at n, 2n, 4n steps must show order >= k-0.5; the analytic helpers get_velocity1/2/4 get the same two oracles. Part 'stock' drives Tracker + the stock ROMS Forcing + the stock ROMS Grid from generated files (fields linear in x and y times a factor piecewise linear in time with its kinks at the frames, over one to four frame intervals of 1-4 steps each, the run starting at or after the first frame, metric varying by cell, subgrids, forward and reversed, optionally a current that varies with depth with particles at different depths and a quarter of the particles switched off) and applies the same one-step identity.",
             "Uniform metric per case via a plug-in grid (the stock ROMS grid returns dx for both directions; part 'stock' takes dx of the start cell from the generated file); RK2 may be midpoint or Heun; order check is one-sided and only judged above a 1e-10 noise floor and where an independent implementation of the scheme itself shows its order at the same step counts (asymptotic regime).",
             "DESIGN.md section 3 C01"),
     "C02": ("exploration",
             "Hypothesis-generated synthetic ROMS files and positions; differential against an independent C-grid interpolator + convexity, linear-exactness and subgrid-vs-full-grid metamorphic relations",
-            "Synthetic grid/forcing files (sizes, N incl. 1, both transforms, random stretching, bathymetries, masks with garbage on land faces, f8/f4/packed storage, legal subgrids incl. negative spellings) are read by the real Grid and Forcing; velocity and scalar forcing at 24-48 positions (uniform, edges, corners, +-1 ulp, rim; depths on levels, above the surface, below the bottom) are compared with the reference, with the node range, with the closed form for linear fields, and between subgrid and full grid; the sampled frame is the first or (after five clock/forcing updates) the second, which may live in a file of its own with its own storage and packing parameters; in two fifths of the cases some particles die after the forcing was evaluated and are removed from the state (what a sparse output record does) before the velocity of the survivors is requested; in a third of the cases the vertical set-up comes from an explicit Vinfo that differs from what the file records (other transform and critical depth, stretching from parameters).",
+            "Synthetic grid/forcing files (sizes, N incl. 1, both transforms, random stretching, bathymetries, masks with garbage on land faces, f8/f4/packed storage, legal subgrids incl. negative spellings) are read by the real Grid and Forcing; velocity and scalar forcing at 24-48 positions (uniform, edges, corners, +-1 ulp, rim; depths on levels, above the surface, below the bottom) are compared with the reference, with the node range, with the closed form for linear fields, and between subgrid and full grid; the sampled frame is the first or (after five clock/forcing updates) the second, which may live in a file of its own with its own storage and packing parameters; in two fifths of the cases some particles die after the forcing was evaluated and are removed from the state (what a sparse output record does) before the velocity of the survivors is requested; in a third of the cases the vertical set-up comes from an explicit Vinfo that differs from what the file records (other transform and critical depth, stretching from parameters), and in half of the second-frame cases the particles change depth just before the last forcing update.",
             "At exactly half-way positions either neighbouring cell is accepted as the particle's own cell; tolerance 1e-12 (f8) / 8*2^-23 (f4, packed).",
             "DESIGN.md section 3 C02"),
     "C03": ("exploration",
             "Hypothesis-generated frame/file layouts; per-step differential against an independent 'lerp between bracketing frames' reference at static probes",
-            "Frame layouts (gaps 1..12 steps incl. all-equal-to-dt, irregular), every kind of partition into files, start offsets, run lengths, both directions, 0-2 scalar fields, f4/f8 or a storage per file (float or packed with per-file scale_factor/add_offset) are generated; Forcing is driven step by step exactly as Model.update orders the calls, and velocity (also 0.5 and 1.0 step ahead) and scalars are compared with the reference after every step. Exploration: finds layout-dependent hand-over errors, proves nothing beyond the cases run.",
+            "Frame layouts (gaps 1..12 steps incl. all-equal-to-dt, irregular), every kind of partition into files, start offsets, run lengths, both directions, 0-2 scalar fields, probes entering up to five steps into the run, f4/f8 or a storage per file (float or packed with per-file scale_factor/add_offset) are generated; Forcing is driven step by step exactly as Model.update orders the calls, and velocity (also 0.5 and 1.0 step ahead) and scalars are compared with the reference after every step. Exploration: finds layout-dependent hand-over errors, proves nothing beyond the cases run.",
             "Reference interpolator in vlib/roms.py written from the property text; tolerance (maxgap+4)*4*eps; reversed runs accept either bracketing frame for scalars between frame steps.",
             "DESIGN.md section 3 C03"),
     "C04": ("exploration",
             "Hypothesis-generated release tables and windows; differential of the State after every release step against a reference release schedule",
-            "Tables (several times x rows, mult 0..5 or absent, rows before/in/at/after the window, extra int/float/time columns as instance or particle variables, header or names, column permutations, timestamp spellings, X/Y or lon/lat, discrete or continuous, forward or reversed) are read by the real ParticleReleaser; after each timer.update(); release.update() the newly appended particles must be exactly the scheduled rows repeated mult times, in file-row order, with their positions, extras and release time; in half of the cases some particles die between releases and stay in the state. Part 'warm' runs ladim.main warm-started from a drawn file boundary of a split run with a recording release plug-in: nothing is released at the restart time, every later row / tick enters at its own step and position with the next pids.",
+            "Tables (several times x rows, mult 0..5 or absent, rows before/in/at/after the window, extra int/float/time columns as instance or particle variables, header or names, column permutations, timestamp spellings, X/Y or lon/lat, discrete or continuous, forward or reversed) are read by the real ParticleReleaser; after each timer.update(); release.update() the newly appended particles must be exactly the scheduled rows repeated mult times, in file-row order, with their positions, extras and release time; in half of the cases some particles die between releases and stay in the state; a third of the X/Y tables also carry lon/lat columns that point elsewhere (X, Y wins, as documented). Part 'warm' runs ladim.main warm-started from a drawn file boundary of a split run with a recording release plug-in: nothing is released at the restart time, every later row / tick enters at its own step and position with the next pids.",
             "Times on the model grid, table sorted in simulation order, continuous file times on the tick grid (the property's quantifier); text->float parsing tolerance 1e-13.",
             "DESIGN.md section 3 C04"),
     "C05": ("exploration",
@@ -55,7 +55,7 @@ CHECKS = {
             "DESIGN.md section 3 C08"),
     "C09": ("exploration",
             "Hypothesis-generated masks, subgrids, flows and positions against a reference of kill / inactive / land-cancel (one step); per-step invariants over generated end-to-end histories observed through recording plug-ins",
-            "One step of the real Tracker on the real Grid with a plug-in forcing that gives every particle its own strong constant velocity (so all schemes prescribe the same move) is compared with the reference outcome; generated simulations (stock forcing, diffusion on/off, all schemes) are observed after every step: the living are finite, inside the valid region and at sea, the dead never return nor appear in a later record, inactive particles keep X, Y.",
+            "One step of the real Tracker on the real Grid with a plug-in forcing that gives every particle its own strong constant velocity (so all schemes prescribe the same move) is compared with the reference outcome; generated simulations (stock forcing, diffusion on/off, all schemes) are observed after every step: the living are finite, inside the valid region and at sea, the dead never return nor appear in a later record - neither in the snapshots nor in the sparse or dense output files themselves -, inactive particles keep X, Y.",
             "A candidate position exactly half-way between two cells may be attributed to either; with diffusion on only the invariants apply.",
             "DESIGN.md section 3 C09"),
     "C10": ("exploration",
@@ -70,12 +70,12 @@ CHECKS = {
             "DESIGN.md section 3 C11"),
     "C14": ("exploration",
             "Hypothesis-generated base scenario + one generated variant (drop/add/permute rows, kill others, whole-step time shift, repeat); metamorphic relation: per-particle trajectories bit-identical up to renumbering",
-            "Base scenarios have depth- and position-dependent currents over variable bathymetry, land, scripted deaths by tag followed by output steps, lifetimes, late releases, scalar forcing, an ageing IBM, both layouts and split files; a third of the cases are coastal (release next to land, onshore flow faster than a cell per step, particles switched off or killed early that linger in the state); every release row carries a unique tag so that trajectories are matched after renumbering; all variables of every record must be bit-identical (f8).",
+            "Base scenarios have depth- and position-dependent currents over variable bathymetry, land, scripted deaths by tag followed by output steps, lifetimes, late releases, scalar forcing, an ageing IBM, both layouts and split files; the generator has fixed shares of directed flavours: coastal (release next to land, onshore flow faster than a cell per step, particles switched off or killed early that linger in the state), stage_cross (deaths seen by a sparse record while Runge-Kutta stages leave the start cell), units_shift (forcing time axis in days/hours since another epoch, whole-step shifts), border (a switched-off particle and another one leaving the grid), empty_gap (the model running empty until a later release); every release row carries a unique tag so that trajectories are matched after renumbering; all variables of every record must be bit-identical (f8).",
             "mult = 1 for every row (unique tags); diffusion off.",
             "DESIGN.md section 3 C14"),
     "C15": ("exploration",
             "Hypothesis-generated bathymetries, depths and vertical forcing against the validity predicate 0 <= Z' <= h(start cell); exact reflected value for advection-only cases",
-            "The real Tracker on a plug-in grid with generated bathymetry (ratios up to 5000), start depths incl. exactly 0 and h, vertical diffusion and/or advection within the property's premise, all horizontal schemes with flow into other cells, 1-4 steps; part 'stock' repeats it on the stock ROMS Grid built from a generated file (random / eta-sloping / xi-sloping bathymetry, subgrids with i0 != j0) with the reference depth read from the generated bathymetry.",
+            "The real Tracker on a plug-in grid with generated bathymetry (ratios up to 5000), start depths incl. exactly 0 and h, vertical diffusion and/or advection within the property's premise, all horizontal schemes with flow into other cells, 1-4 steps; part 'stock' repeats it on the stock ROMS Grid built from a generated file (random / eta-sloping / xi-sloping bathymetry, subgrids with i0 != j0) with the reference depth read from the generated bathymetry; between steps some particles may die and be removed while as many new ones are released.",
             "Premise enforced with a 6.5-sigma margin on the random part; only particles starting inside [0, h] are judged; a particle exactly on a cell edge may be given either neighbouring cell.",
             "DESIGN.md section 3 C15"),
     "C17": ("exploration",
@@ -90,7 +90,7 @@ CHECKS = {
             "DESIGN.md section 3 C18"),
     "C19": ("exploration",
             "Hypothesis-generated run lengths, periods, plug-in spellings and cold/warm starts; call-log grammar + state snapshots from recording plug-ins in every module slot",
-            "A recording module (thin subclasses of the stock Grid, Forcing, ParticleReleaser, Tracker, Output and a scripted IBM) is installed in any subset of the six slots under a generated spelling (absolute path with/without .py, relative path, bare name in the working directory with a same-named decoy on sys.path, module name on sys.path); the update calls must follow release, forcing, output, tracker, ibm once per step (plus the output-less catch-up step of a warm start), snapshots taken inside the calls must be consistent with that order, kills take effect from the next record, close is called once per module, the decoy never runs, and - plug-in files of different slots may share one file name in different directories - every logged call comes from the file configured for its slot; the first release may come some steps after the start (the model steps with an empty state) and the scalar forcing value in every record must be the one of the frame in force at the record's time.",
+            "A recording module (thin subclasses of the stock Grid, Forcing, ParticleReleaser, Tracker, Output and a scripted IBM) is installed in any subset of the six slots under a generated spelling (absolute path with/without .py, relative path, bare name in the working directory with a same-named decoy on sys.path, module name on sys.path); the update calls must follow release, forcing, output, tracker, ibm once per step (plus the output-less catch-up step of a warm start), snapshots taken inside the calls must be consistent with that order, kills take effect from the next record, close is called once per module, the decoy never runs, and - plug-in files of different slots may share one file name in different directories - every logged call comes from the file configured for its slot; the first release may come some steps after the start (the model steps with an empty state) and the scalar forcing value in every record must be the one of the frame in force at the record's time. Part 'legacy': a version-1 file naming a recording IBM by path, with or without a variables list.",
             "Recording classes log and delegate to the stock implementation.",
             "DESIGN.md section 3 C19"),
     "C20": ("fault_enumeration",
@@ -100,7 +100,7 @@ CHECKS = {
             "DESIGN.md section 3 C20"),
     "C12": ("exploration",
             "Hypothesis-generated vertical set-ups and depths checked against validity predicates (monotone, bounded, interleaved) and the clamped-interpolation identity",
-            "s_stretch, sdepth, z2s and Grid.z_r/z_w (from file and from Vinfo) are evaluated on generated N, stretching parameters, transforms, hc, bathymetries and depths incl. exactly on levels and outside the range.",
+            "s_stretch, sdepth, z2s and Grid.z_r/z_w (from file and from Vinfo) are evaluated on generated N, stretching parameters, transforms, hc, bathymetries and depths incl. exactly on levels and outside the range (the file may record another transform than the Vinfo); part 'lookup': the index pair and weight the forcing keeps for its particles over a history of forcing updates between which particles change depth and number.",
             "theta parameters >= 1e-3 (see DESIGN C12); tolerances 1e-12 (stretching end points) and 1e-9*h.",
             "DESIGN.md section 3 C12"),
     "C13": ("exploration",
